@@ -9,7 +9,10 @@ META = {"C11": {
     "technique": "executable TLA+ specification of the XOR metric over SHA-256 digests (byte-wise Bitwise xor, lexicographic order); TLC checks the metric laws on a small digest universe, enumerates the input partition, and is the oracle over recorded real calls",
     "text": "Every recorded call of NetworkAddress::distance / convert_distance_to_u256 (both directions, typed and raw-key forms), sort_peers_by_address, the replication range filter and "
             "Node::calculate_get_closest_peers is compared by TLC with the specification's value computed from digests the driver derives itself (sha2), over the TLC-enumerated partition "
-            "(address kind x set size 0,1,4,5,6,21 x count x range class x near/far) and random mixed-kind pairs. The fetcher's closeness decisions (which queued records are started first, range and fullness filters) are judged on ordering-stress runs of the real fetcher "
+            "(address kind x set size 0,1,4,5,6,21 x count x range class x near/far; plus degenerate sets: the target itself among the peers, a peer occurring twice, counts 1 / all-but-one / more than there are, "
+            "sets of exactly one close group and one less) and random mixed-kind pairs. Typed and raw-key forms are compared for every kind, peers included (raw/raw and typed/raw). Every peer handed to "
+            "calculate_get_closest_peers carries its own multiaddrs and every returned pair must be one of the entries handed in. convert_distance_to_u256 is also fed crafted real distances "
+            "(0, 1, 2^k and 2^k-1 up to 2^255, 2^256-1, 10^k and 10^k-1, leading zero bytes) obtained by XOR-combining real address distances (GF(2) elimination on the driver's own digests). The fetcher's closeness decisions (which queued records are started first, range and fullness filters) are judged on ordering-stress runs of the real fetcher "
             "(dozens of queued entries, the closest not startable) by the fetcher's trace specification against the same independent ranking; the store's range decisions are checked in its own area.",
     "note": "trusted: TLC incl. CommunityModules Bitwise; sha2 crate; all addresses cannot be enumerated: members of each class are seeded random, near pairs are neighbours in digest order among 3000 random addresses (2-3 shared leading bytes)",
     "design_ref": "5 Area Distance"}}
@@ -47,12 +50,14 @@ def run(prop, tier, replay=None):
     if mc.violated:
         raise ToolError("the executable metric of C11 breaks its own laws (%s)" % mc.violated)
     v.add_model(mc)
+    all_cases = read_ndjson(cases)
     if replay:
+        all_cases = [replay["case"]]
         write_ndjson(cases, [replay["case"]])
     build(PACKAGES)
     trace = os.path.join(w, "trace.ndjson")
     run_driver("drv_distance", ["--cases", cases, "--out", trace, "--reps", 12 if thorough else 2, "--random", 5000 if thorough else 400,
-                                   "--candidates", 300 if thorough else 30, "--work", w], w, timeout=3000)
+                                   "--candidates", 300 if thorough else 30, "--crafted", 6 if thorough else 1, "--work", w], w, timeout=3000)
     rep = validate_trace("distance", "DistanceTrace", "DistanceTrace.cfg", trace, w, timeout=3400, heap="6g")
     events = read_ndjson(trace)
     for x in rep["violations"]:
@@ -60,13 +65,23 @@ def run(prop, tier, replay=None):
         if x["clause"] == "Malformed":
             raise ToolError("malformed trace line %d" % x["line"])
         v.violation(x["clause"], "%s at line %d: %s" % (e["ev"], x["line"], json.dumps({k: e[k] for k in e if k not in ("peers",)})[:500]),
-                    {"area": "distance", "case": {"kind": "chunk", "size": len(e.get("peers", [])), "count": e.get("n", 5), "range": "equal", "near": False}, "event": e})
+                    {"area": "distance", "case": (all_cases[e["cid"]] if "cid" in e else None) or {"kind": "chunk", "size": len(e.get("peers", [])), "count": e.get("n", 5), "range": "equal", "near": False, "variant": "plain"},
+                     "event": e})
     nfetch = 0 if replay else fetcher_closeness(v, w, thorough)
     v.cov["evaluations"] = len(events) + nfetch
     v.cov["distinct_nontrivial"] = len(set(json.dumps([e["ev"], e.get("a"), e.get("b"), e.get("target"), e.get("n"), e.get("range")]) for e in events))
     v.cov["traces_validated_against_impl"] = 1
+    v.cov["by_event"] = {k: sum(1 for e in events if e["ev"] == k) for k in sorted(set(e["ev"] for e in events))}
+    v.cov["degenerate_set_calls"] = {k: sum(1 for e in events if "cid" in e and all_cases[e["cid"]].get("variant") == k) for k in ("self", "dup", "selfdup")}
+    v.cov["crafted_conversions"] = sorted(set(e["class"] for e in events if e["ev"] == "Conv"))
+    v.cov["closest_pairs_returned_with_addrs"] = sum(sum(1 for a in e["oaddr"] if a) for e in events if e["ev"] == "Closest")
     v.cov["rule"] = "a case is one real call with concrete addresses; distinct = distinct (call, digests, count, range); every call compares a real result with the specification's value"
     v.cov["samples"] = [{k: (e[k] if k != "peers" else len(e[k])) for k in e} for e in events[:1] + events[3:5]]
     v.cov["exhaustive"] = False
-    v.assumptions = ["the digest of an address is SHA-256 of its address bytes (peer id bytes / 32-byte name / raw key bytes), computed with the sha2 crate"]
+    v.assumptions = ["the digest of an address is SHA-256 of its address bytes (peer id bytes / 32-byte name / raw key bytes), computed with the sha2 crate; the 32-byte name of a register is "
+                     "XorName::from_content(meta ++ owner key), of a scratchpad XorName::from_content(owner key) (xor_name crate), derived by the driver from the parts of the address",
+                     "a peer set with a repeated peer is a list of entries: results are compared as digests; whether a list of CLOSE_GROUP_SIZE entries with fewer distinct peers should be reported as "
+                     "'too few' is not decided by the statement and not judged",
+                     "crafted distances: a real libp2p Distance with a chosen value is obtained as distance(a_0, a_0 xor T) where the key-space point is reached with libp2p's own for_distance from real "
+                     "address distances; the event is judged like any other distance (value = XOR of the two digests)"]
     return v.finish()
